@@ -328,9 +328,16 @@ func runWorker(def *CheckDef, tier string, shard, n int, deadline time.Time, ski
 	done := make(chan struct{})
 	go func() {
 		grace := 120 * time.Second
+		if g, err := strconv.Atoi(os.Getenv("VERIF_GRACE_S")); err == nil && g > 0 {
+			grace = time.Duration(g) * time.Second
+		}
+		wait := time.Until(deadline)
+		if wait < 0 {
+			wait = 0 // a worker restarted after the deadline still gets the whole grace period
+		}
 		select {
 		case <-done:
-		case <-time.After(time.Until(deadline) + grace):
+		case <-time.After(wait + grace):
 			sr.killed = true
 			cmd.Process.Kill()
 		}
@@ -432,15 +439,25 @@ func orchestrate(args []string) {
 			merged := newResult(i)
 			var conform []ConformRec
 			skip := int64(0)
-			for attempt := 0; attempt < 200; attempt++ {
+			sr0killed := 0
+			// a shard is restarted after a case that killed it or hung in it, at most 3 times after the
+			// deadline / 40 times overall: the remaining cases of the shard are then left unexplored
+			for attempt := 0; attempt < 40; attempt++ {
+				if attempt > 0 && sr0killed >= 3 {
+					merged.Notes = append(merged.Notes, "shard abandoned after three cases that hung in it")
+					break
+				}
 				sr := runWorker(def, tier, i, n, deadline, skip)
+				if os.Getenv("VERIF_DEBUG") != "" {
+					fmt.Fprintf(os.Stderr, "debug: shard %d attempt %d crashed=%v killed=%v lastIdx=%d skip=%d stderr=%q\n", i, attempt, sr.crashed, sr.killed, sr.lastIdx, skip, tail(sr.stderr, 200))
+				}
 				if !sr.crashed {
 					mergeResult(merged, sr.res)
 					conform = append(conform, sr.conform...)
 					break
 				}
 				if !def.Risky || sr.lastIdx < 0 {
-					merged.Error = "worker died without a result: " + tail(sr.stderr, 2000)
+					merged.Error = fmt.Sprintf("worker died without a result (killed by watchdog: %v, last announced case: %d): %s", sr.killed, sr.lastIdx, tail(sr.stderr, 2000))
 					break
 				}
 				// the announced case killed the process
@@ -448,6 +465,7 @@ func orchestrate(args []string) {
 				json.Unmarshal([]byte(sr.lastCase), &cs)
 				class, detail := "process-death", firstLines(sr.stderr, 6)
 				if sr.killed {
+					sr0killed++
 					class, detail = "hang", "the worker was still inside this case two minutes after the deadline of the run and was killed"
 				}
 				mu.Lock()
